@@ -92,13 +92,18 @@ class C18(Prop):
         "clause 3 (equals the reference string) is asserted only for texts of the unambiguous class prefix+body+suffix[+stop+tail] with a body free of pattern characters",
     ]
     exhaustive_parts = ["all 2^(n-1) chunkings of every generated text with n <= 12"]
-    expected_probes = ["boundary_inside_prefix", "boundary_inside_stop", "suffix_in_prefix_chunk", "stop_inside_chunk", "exhaustive_texts"]
+    expected_probes = ["rails_turn_streamed_text", "boundary_inside_prefix", "boundary_inside_stop", "suffix_in_prefix_chunk", "stop_inside_chunk", "exhaustive_texts"]
     quick_runs = 1600
     thorough_runs = 120000
     chunk = 20
     run_timeout_s = 120.0
 
     def generate(self, d, index, tier):
+        import os
+
+        fam = os.environ.get("C18_FAMILY")  # development aid: force one family
+        if fam == "rails" or (fam is None and d.chance(0.04, "family-rails")):
+            return gen_rails_scenario(d, tier)
         prefix, suffix, stop = d.choice(CONFIGS, "cfg")
         unamb = d.chance(0.65, "class")
         long_cfg = len(prefix or "") > 4
@@ -210,6 +215,8 @@ class C18(Prop):
         return res["out"]
 
     def execute(self, sc):
+        if sc.get("family") == "rails":
+            return execute_rails(sc)
         out = Outcome()
         tr = Trace(sc.get("run_seed"))
         text, prefix, suffix, stop = sc["text"], sc["prefix"], sc["suffix"], sc["stop"]
@@ -279,6 +286,13 @@ class C18(Prop):
                 out.probe("suffix_in_prefix_chunk")
 
     def shrink(self, sc):
+        if sc.get("family") == "rails":
+            if len(sc.get("chunkings", [])) > 2:
+                for k in range(1, len(sc["chunkings"])):
+                    c = copy.deepcopy(sc)
+                    c["chunkings"] = [sc["chunkings"][0], sc["chunkings"][k]]
+                    yield c
+            return
         # reduce an 'all' scenario to explicit pairs is done by ddmin over cuts after expansion
         if sc["cuts"] == "all":
             c = copy.deepcopy(sc)
@@ -291,11 +305,166 @@ class C18(Prop):
                 c[key] = val
                 yield c
 
-    ddmin_paths = [("cuts",)]
+    ddmin_paths = [("cuts",), ("convs", "*", "turns")]
 
     def same_class(self, a, b):
         # while shrinking the cut sets the boundary description may move; keep oracle + config class
         return a.oracle == b.oracle and a.sig.split(":")[0] == b.sig.split(":")[0]
+
+
+# ------------------------------------------------------------------------------------------------
+# Integration family: the same property through LLMRails (what `stream_async` does): the simulated LLM streams its
+# reply token by token into the handler that generation.py configures per task (patterns `  "`...`"`, stop sequences,
+# the buffered local handler of single-call mode piped into the caller's handler, push_chunk of predefined messages).
+# One scenario = one conversation; it is served once per chunking with the LLM texts unchanged; the text delivered by
+# the caller's streaming handler must not depend on the chunking.
+# ------------------------------------------------------------------------------------------------
+RAILS_BODIES = ["generated answer", "ok", "", "a", "two words", 'said "quoted" words', "line one\\nstill text", "ends with space ", "x" * 40, "bot says: hi", "User: not a turn"]
+RAILS_TAILS = ["", "", "\n", '\nuser "and then"', '\nuser "and then"\n  ask more\nbot answer more\n  "never shown"', "\n\n", " ", '\nUser: hi', '"\n']
+
+
+def gen_rails_scenario(d, tier):
+    from ..gen import convo
+
+    mode = d.weighted([("dialog", 3), ("single_call", 3), ("passthrough", 2), ("rails_only", 1)], "mode")
+    sc = convo.gen_spec(d, colang="1.0", max_turns=2, modes=[(mode, 1)], allow_shipped=False)
+    sc["in_rails"] = sc["in_rails"][:1]
+    sc["out_rails"] = []
+    sc["exceptions"] = False
+    sc["streaming"] = True
+    sc["verbose_bot_message"] = d.chance(0.8, "verbose")
+    sc["lat_mode"] = "zero"
+    sc["llm_body"], sc["llm_tail"] = {}, {}
+    for t, turn in enumerate(sc["convs"][0]["turns"]):
+        sc["llm_body"][turn["tok"]] = d.choice(RAILS_BODIES, "body", t)
+        sc["llm_tail"][turn["tok"]] = d.choice(RAILS_TAILS, "tail", t)
+        if d.chance(0.6, "free", t):
+            sc["intents"][turn["tok"]] = "free"  # LLM-made message instead of a predefined one
+    n = 10 if tier == "quick" else 40
+    sc["chunkings"] = ["whole", "chars"] + [["cuts", d.randint(0, 1 << 30, "ck", k), d.choice([0.05, 0.15, 0.3, 0.6], "dens", k)] for k in range(n - 2)]
+    sc["family"] = "rails"
+    return sc
+
+
+def _chunker_for(spec):
+    from ..kernel.draws import Draws
+
+    if spec == "whole":
+        return lambda call, reply: [reply]
+    if spec == "chars":
+        return lambda call, reply: list(reply)
+    _, seed, dens = spec
+    dd = Draws(seed)
+
+    def chunker(call, reply):
+        cuts = [i for i in range(1, len(reply)) if dd.unit("cut", call.n, i) < dens]
+        return chunks_of(reply, cuts)
+
+    return chunker
+
+
+def _serve_streaming(sc, chunking):
+    """One conversation with streaming handlers; returns per turn (streamed text, reply content, status)."""
+    from ..kernel import seams
+    from ..worlds import rails as R
+    from nemoguardrails.streaming import StreamingHandler
+
+    holder = {}
+
+    def clock():
+        lp = holder.get("loop")
+        return lp.time() if lp is not None else 0.0
+
+    ctx = seams.SimContext(clock=clock)
+    seams.install(ctx)
+    seams.reset_run_state(ctx)
+    try:
+        world = R.RailsWorld(sc, loop_clock=clock, latency=lambda call: 0.0, action_latency=lambda kind, name, n: 0.0)
+        world.llm_world.chunker = _chunker_for(chunking)
+        turns = []
+
+        async def main(loop):
+            holder["loop"] = loop
+            msgs = []
+            for t, turn in enumerate(sc["convs"][0]["turns"]):
+                msgs.append({"role": "user", "content": turn["text"]})
+                h = StreamingHandler()
+                got = []
+
+                async def consume():
+                    async for c in h:
+                        got.append(c)
+
+                ct = asyncio.ensure_future(consume())
+                st, res = await world.generate("c0", messages=msgs, streaming_handler=h)
+                await asyncio.sleep(1.0)
+                if not ct.done():
+                    ct.cancel()
+                    try:
+                        await ct
+                    except asyncio.CancelledError:
+                        pass
+                content = None
+                if st == "ok":
+                    msg = res.response[0] if hasattr(res, "response") and isinstance(res.response, list) else res
+                    content = msg.get("content") if isinstance(msg, dict) else None
+                    if isinstance(content, str) and msg.get("role") == "assistant":
+                        msgs.append({"role": "assistant", "content": content})
+                else:
+                    msgs.pop()
+                turns.append(("".join(c for c in got if c), content, st if st == "ok" else "raised %s" % type(res).__name__, h.completion))
+            return loop.time()
+
+        run_sim(main, start_time=1000.0, max_iterations=400000)
+        streamed_calls = [c.task for c in world.llm_world.calls]
+        return turns, streamed_calls
+    finally:
+        seams.uninstall()
+
+
+def execute_rails(sc):
+    import logging
+
+    logging.disable(logging.CRITICAL)
+    out = Outcome()
+    tr = Trace(sc.get("run_seed"))
+    out.evaluations = 0
+    base = None
+    cfg = "rails:%s" % sc["mode"]
+    for chunking in sc["chunkings"]:
+        try:
+            turns, tasks = _serve_streaming(sc, chunking)
+        except control.SimControl:
+            raise
+        out.evaluations += 1
+        tr.log("chunking", chunking if isinstance(chunking, str) else chunking[1:], [(a, b, c) for a, b, c, _ in turns])
+        if any(t[2] != "ok" for t in turns):
+            out.inconclusive = "generate raised with a streaming handler (%s)" % [t[2] for t in turns]
+            break
+        if base is None:
+            base = (chunking, turns)
+            for a, b, c, comp in turns:
+                if a:
+                    out.probe("rails_turn_streamed_text")
+                if a and a == b:
+                    out.probe("rails_streamed_equals_reply")
+            continue
+        for t, (x, y) in enumerate(zip(base[1], turns)):
+            if x[0] != y[0]:
+                body = sc["llm_body"].get(sc["convs"][0]["turns"][t]["tok"])
+                tail = sc["llm_tail"].get(sc["convs"][0]["turns"][t]["tok"])
+                out.violate("chunking-dependent", "%s:%s" % (cfg, "tail" if tail else "no-tail"),
+                            "mode %s turn %d (LLM message body %r, text after the closing quote %r): with the LLM reply streamed as %s the caller's handler delivered %r, streamed as %s it delivered %r (returned reply: %r)"
+                            % (sc["mode"], t, body, tail, base[0] if isinstance(base[0], str) else "seeded chunks", x[0], chunking if isinstance(chunking, str) else "seeded chunks %r" % (chunking[1:],), y[0], y[1]))
+                break
+            if x[1] != y[1]:
+                out.violate("reply-chunking-dependent", cfg, "mode %s turn %d: the returned reply depends on how the LLM text was streamed: %r vs %r" % (sc["mode"], t, x[1], y[1]))
+                break
+        out.nontrivial_sigs.append((cfg, tuple(sorted(set(tasks))), chunking if isinstance(chunking, str) else "seeded"))
+    out.digest = tr.digest()
+    out.sample = {"family": "rails (LLMRails.generate_async with a streaming handler)", "mode": sc["mode"], "llm_body": sc["llm_body"], "llm_tail": sc["llm_tail"], "chunkings": len(sc["chunkings"]),
+                  "streamed_first_chunking": [t[0] for t in base[1]] if base else None, "replies": [t[1] for t in base[1]] if base else None}
+    return out
 
 
 def _pattern_spans(text, prefix, suffix, stop):
